@@ -220,7 +220,6 @@ def specFlags (v : VmFlags) : Flags := { wide := false, nocase := v.nocase, dota
 structure FwdByte (e : Env) : Prop where
   notWide : e.fl.wide = false
   notBack : e.fl.backwards = false
-  notScan : e.fl.scan = false
   startIn : e.start ≤ e.buf.size
 
 theorem cs_one {e : Env} (h : FwdByte e) : e.cs = 1 := by simp [Env.cs, h.notWide]
@@ -1409,36 +1408,50 @@ theorem sstar_lang (e : Env) (h : FwdByte e) {r : Re} {n : Nat} (hs : Seg e.code
       exact ⟨by simpa [modeAfter] using g1v, fun q q' hq => g1l q q' (by simpa [modeAfter] using hq)⟩
     · exact absurd hstep (fun hh => no_astep hh (match_not_any (by rw [hv.1]; exact hmatch)))
 
+theorem maxBytes_le {e : Env} (h : FwdByte e) : e.start + e.maxBytes ≤ e.buf.size := by
+  have hs := h.startIn
+  unfold Env.maxBytes
+  simp only [h.notBack, Bool.false_eq_true, if_false, cs_one h, Nat.mod_one, Nat.sub_zero]
+  unfold Env.fwdSize
+  omega
+
+/-- invariant of the abstract machine on a whole program: whatever can still be accepted from a reachable state extends
+    to a match of the expression from the start position of the run (in scan mode: from SOME start position `s0`) -/
 theorem reach_lang (e : Env) (h : FwdByte e) {r : Re} {n : Nat} (hs : Seg e.code r 0 n) (hmatch : u8 e.code n = OP_MATCH)
     (hentry : e.entry = 0) {f : Fiber} {m : Mode} {bm : Nat} (hr : Reach e f m bm) :
     (Valid r 0 f.ip f.rc m ∨ AtEnd n f m) ∧ e.start + bm ≤ e.buf.size ∧
-      ∀ q', lang (specFlags e.fl) e.buf r 0 Keps f.ip f.rc m (e.start + bm) q' →
-        lang (specFlags e.fl) e.buf r 0 Keps 0 (-1) .run e.start q' := by
+      ∃ s0, e.start ≤ s0 ∧ s0 ≤ e.start + bm ∧ (e.fl.scan = false → s0 = e.start) ∧
+        ∀ q', lang (specFlags e.fl) e.buf r 0 Keps f.ip f.rc m (e.start + bm) q' →
+          lang (specFlags e.fl) e.buf r 0 Keps 0 (-1) .run s0 q' := by
   induction hr with
   | start =>
     simp only [hentry]
-    exact ⟨.inl (valid_first hs), h.startIn, fun q' hq => by simpa using hq⟩
-  | scanStart bm hsc => rw [h.notScan] at hsc; simp at hsc
+    exact ⟨.inl (valid_first hs), h.startIn, e.start, Nat.le_refl _, by omega, fun _ => rfl, fun q' hq => by simpa using hq⟩
+  | scanStart bm hsc hbm =>
+    simp only [hentry]
+    have := maxBytes_le h
+    exact ⟨.inl (valid_first hs), by omega, e.start + bm, by omega, Nat.le_refl _, fun hh => by rw [hsc] at hh; simp at hh,
+      fun q' hq => hq⟩
   | @sync f g m m' bm _ hmw hss ih =>
-    obtain ⟨hpos, hb, hl⟩ := ih
+    obtain ⟨hpos, hb, s0, h1, h2, h3, hl⟩ := ih
     obtain ⟨r1, r2⟩ := sstar_lang e h hs hmatch hss m hmw hpos
-    exact ⟨r1, hb, fun q' hq => hl q' (r2 _ q' hq)⟩
+    exact ⟨r1, hb, s0, h1, h2, h3, fun q' hq => hl q' (r2 _ q' hq)⟩
   | @zw f bm _ hnc hnm hz ih =>
-    obtain ⟨hpos, hb, hl⟩ := ih
+    obtain ⟨hpos, hb, s0, h1, h2, h3, hl⟩ := ih
     rcases hpos with hst | hend
     · obtain ⟨_, _, _, _, e5⟩ := seg_step e h hs Keps f .run hst
       obtain ⟨g1, g2⟩ := e5 bm hb hnc hz
-      exact ⟨g1, hb, fun q' hq => hl q' (g2 q' hq)⟩
+      exact ⟨g1, hb, s0, h1, h2, h3, fun q' hq => hl q' (g2 q' hq)⟩
     · exact absurd (by rw [hend.1]; exact hmatch) hnm
   | @cons f m bm _ hc hok hany hnp ih =>
-    obtain ⟨hpos, hb, hl⟩ := ih
+    obtain ⟨hpos, hb, s0, h1, h2, h3, hl⟩ := ih
     have hb' : e.start + (bm + e.cs) ≤ e.buf.size := by
       have := consume_in_buf h hok
       rw [cs_one h]; omega
     rcases hpos with hst | hend
     · obtain ⟨_, _, e3, _, _⟩ := seg_step e h hs Keps f m hst
       obtain ⟨g1, g2⟩ := e3 bm hc hok hany hnp
-      refine ⟨g1, hb', ?_⟩
+      refine ⟨g1, hb', s0, h1, by omega, h3, ?_⟩
       intro q' hq
       apply hl q'
       apply g2 q'
@@ -1449,18 +1462,21 @@ theorem reach_lang (e : Env) (h : FwdByte e) {r : Re} {n : Nat} (hs : Seg e.code
       simp [isConsuming, OP_MATCH, OP_ANY, OP_REPEAT_ANY_GREEDY, OP_REPEAT_ANY_UNGREEDY, OP_LITERAL, OP_NOT_LITERAL, OP_MASKED_LITERAL,
         OP_MASKED_NOT_LITERAL, OP_CLASS, OP_WORD_CHAR, OP_NON_WORD_CHAR, OP_SPACE, OP_NON_SPACE, OP_DIGIT, OP_NON_DIGIT] at hc
 
-/-- a reachable fiber at RE_OPCODE_MATCH after `L` bytes: the pattern matches `[start, start+L)` -/
+/-- a reachable fiber at RE_OPCODE_MATCH after `L` bytes: the expression matches `[s0, start+L)` for a start position `s0`
+    of the run (`s0 = start` unless the run is in scan mode) -/
 theorem match_sound (e : Env) (h : FwdByte e) {r : Re} {n : Nat} (hs : Seg e.code r 0 n) (hmatch : u8 e.code n = OP_MATCH)
     (hentry : e.entry = 0) {f : Fiber} {m : Mode} {L : Nat} (hr : Reach e f m L) (hm : u8 e.code f.ip = OP_MATCH) :
-    Re.Matches (specFlags e.fl) e.buf r e.start (e.start + L) := by
-  obtain ⟨hpos, _, hl⟩ := reach_lang e h hs hmatch hentry hr
+    ∃ s0, e.start ≤ s0 ∧ s0 ≤ e.start + L ∧ e.start + L ≤ e.buf.size ∧ (e.fl.scan = false → s0 = e.start) ∧
+      Re.Matches (specFlags e.fl) e.buf r s0 (e.start + L) := by
+  obtain ⟨hpos, hbd, s0, h1, h2, h3, hl⟩ := reach_lang e h hs hmatch hentry hr
   rcases hpos with hst | hend
   · exact absurd hm (start_not_match e h hs hst)
   · have hk : lang (specFlags e.fl) e.buf r 0 Keps f.ip f.rc m (e.start + L) (e.start + L) := by
       rw [hend.1, lang_end _ _ hs]; rfl
     obtain ⟨t, ht, hkt⟩ := lang_entry _ _ hs Keps _ _ (hl _ hk)
     simp only [Keps] at hkt
-    rwa [hkt] at ht
+    rw [hkt] at ht
+    exact ⟨s0, h1, h2, hbd, h3, ht⟩
 
 /-! ### the emitted bytes decode to a segment -/
 /-- `code` contains the byte list `bs` at address `a` -/
@@ -1482,11 +1498,8 @@ theorem sub_whole (bs : List UInt8) : Sub bs.toArray 0 bs := by
   intro i _
   simp [u8]
 
-theorem refOff_frag {r : Re} (hf : Frag r) : refOff false r = some 0 := by
-  induction hf with
-  | cat _ _ ih1 _ => simp [refOff, ih1]
-  | plus _ _ ih => simp [refOff, ih]
-  | _ => simp [refOff]
+theorem clen_pos {r : Re} (hf : Frag r) : 0 < clen r := by
+  induction hf <;> simp only [clen] <;> omega
 
 theorem emit_len {r : Re} (hf : Frag r) : ∀ s, (emit false r s).1.length = clen r := by
   induction hf with
@@ -1497,9 +1510,15 @@ theorem emit_len {r : Re} (hf : Frag r) : ∀ s, (emit false r s).1.length = cle
     intro s
     simp only [emit, clen, List.length_append, List.length_cons, List.length_nil, leI16, le16]
     rw [ih]
-  | plus g _ ih =>
+  | @plus x g hx ih =>
     intro s
-    simp only [emit, clen, List.length_append, List.length_cons, List.length_nil, leI16, le16]
+    have hne : (emit false x s).1.isEmpty = false := by
+      have h1 := ih s
+      have h2 := clen_pos hx
+      cases hc : (emit false x s).1 with
+      | nil => rw [hc] at h1; simp at h1; omega
+      | cons _ _ => rfl
+    simp only [emit, hne, Bool.false_eq_true, if_false, clen, List.length_append, List.length_cons, List.length_nil, leI16, le16]
     rw [ih]
   | cat _ _ ih1 ih2 =>
     intro s
@@ -1731,10 +1750,14 @@ theorem seg_of_emit {r : Re} (hf : Frag r) : ∀ (s : Nat) (code : Code) (a : Na
   | @plus x g hx ih =>
     intro s code a hsz h
     simp only [clen] at hsz ⊢
-    simp only [emit] at h
+    have hne : (emit false x s).1.isEmpty = false := by
+      have h1 := emit_len hx s
+      have h2 := clen_pos hx
+      cases hc : (emit false x s).1 with
+      | nil => rw [hc] at h1; simp at h1; omega
+      | cons _ _ => rfl
+    simp only [emit, hne, Bool.false_eq_true, if_false] at h
     -- ca ++ [op, id] ++ off16
-    rw [refOff_frag hx] at h
-    simp only [Option.getD_some, Int.natCast_zero, Int.zero_sub] at h
     obtain ⟨h12, hoff⟩ := sub_append h
     obtain ⟨hca, hhead⟩ := sub_append h12
     simp only [List.length_append, List.length_cons, List.length_nil, emit_len hx] at hoff hhead
@@ -1805,16 +1828,20 @@ theorem seg_of_emit {r : Re} (hf : Frag r) : ∀ (s : Nat) (code : Code) (a : Na
     rw [e3]; exact this
 
 
-/-- soundness of the VM on the code emitted for an expression of the fragment (byte mode, forwards, any nocase / dot-all
-    flags, exhaustive or not): every reported length is a match length of the expression at the start position -/
-theorem vm_sound_frag (r : Re) (hf : Frag r) (hsz : clen r < 32000) (buf : Bytes) (start : Nat) (hst : start ≤ buf.size)
-    (fl : VmFlags) (hw : fl.wide = false) (hb : fl.backwards = false) (hsc : fl.scan = false) (fuel : Nat) (m : Int) (c : List Nat)
-    (h : exec { code := (emitCode false r).toArray, entry := 0, buf := buf, start := start, fl := fl, syncFuel := fuel } = .done m c) :
-    (∀ L, L ∈ c → Re.Matches (specFlags fl) buf r start (start + L)) ∧
-    (0 ≤ m → Re.Matches (specFlags fl) buf r start (start + m.toNat)) := by
-  obtain ⟨e, he⟩ : ∃ e : Env, e = { code := (emitCode false r).toArray, entry := 0, buf := buf, start := start, fl := fl, syncFuel := fuel } := ⟨_, rfl⟩
+/-- the environment of a run of the emitted forward code of `r` -/
+def envOf (r : Re) (buf : Bytes) (start : Nat) (fl : VmFlags) (fuel : Nat) : Env :=
+  { code := (emitCode false r).toArray, entry := 0, buf := buf, start := start, fl := fl, syncFuel := fuel }
+
+theorem envOf_sound (r : Re) (hf : Frag r) (hsz : clen r < 32000) (buf : Bytes) (start : Nat) (hst : start ≤ buf.size)
+    (fl : VmFlags) (hw : fl.wide = false) (hb : fl.backwards = false) (fuel : Nat) (m : Int) (c : List Nat)
+    (h : exec (envOf r buf start fl fuel) = .done m c) :
+    (∀ L, L ∈ c → ∃ s0, start ≤ s0 ∧ s0 ≤ start + L ∧ start + L ≤ buf.size ∧ (fl.scan = false → s0 = start) ∧
+      Re.Matches (specFlags fl) buf r s0 (start + L)) ∧
+    (0 ≤ m → ∃ s0, start ≤ s0 ∧ s0 ≤ start + m.toNat ∧ start + m.toNat ≤ buf.size ∧ (fl.scan = false → s0 = start) ∧
+      Re.Matches (specFlags fl) buf r s0 (start + m.toNat)) := by
+  obtain ⟨e, he⟩ : ∃ e : Env, e = envOf r buf start fl fuel := ⟨_, rfl⟩
   rw [← he] at h
-  have hfb : FwdByte e := by subst he; exact ⟨hw, hb, hsc, hst⟩
+  have hfb : FwdByte e := by subst he; exact ⟨hw, hb, hst⟩
   have hsub : Sub e.code 0 ((emit false r 0).1 ++ [0xAD]) := by subst he; exact sub_whole _
   obtain ⟨h1, h2⟩ := sub_append hsub
   have hseg : Seg e.code r 0 (clen r) := by
@@ -1839,5 +1866,32 @@ theorem vm_sound_frag (r : Re) (hf : Frag r) (hsz : clen r < 32000) (buf : Bytes
     obtain ⟨f, md, hr, hm⟩ := g2 hm0
     have := match_sound e hfb hseg hmatch hentry hr hm
     rwa [hbuf, hstart, hfl] at this
+
+/-- soundness of the VM on the code emitted for an expression of the fragment (byte mode, forwards, any nocase / dot-all
+    flags, exhaustive or not, string verification = not scan mode): every reported length is a match length of the
+    expression at the start position -/
+theorem vm_sound_frag (r : Re) (hf : Frag r) (hsz : clen r < 32000) (buf : Bytes) (start : Nat) (hst : start ≤ buf.size)
+    (fl : VmFlags) (hw : fl.wide = false) (hb : fl.backwards = false) (hsc : fl.scan = false) (fuel : Nat) (m : Int) (c : List Nat)
+    (h : exec { code := (emitCode false r).toArray, entry := 0, buf := buf, start := start, fl := fl, syncFuel := fuel } = .done m c) :
+    (∀ L, L ∈ c → Re.Matches (specFlags fl) buf r start (start + L)) ∧
+    (0 ≤ m → Re.Matches (specFlags fl) buf r start (start + m.toNat)) := by
+  obtain ⟨g1, g2⟩ := envOf_sound r hf hsz buf start hst fl hw hb fuel m c h
+  constructor
+  · intro L hL
+    obtain ⟨s0, _, _, _, h3, hm⟩ := g1 L hL
+    rw [h3 hsc] at hm; exact hm
+  · intro hm0
+    obtain ⟨s0, _, _, _, h3, hm⟩ := g2 hm0
+    rw [h3 hsc] at hm; exact hm
+
+/-- soundness of the `matches` operator's engine run (RE_FLAGS_SCAN over the operand string, start 0): a result >= 0
+    means that the expression matches somewhere in the operand -/
+theorem matches_sound_frag (r : Re) (hf : Frag r) (hsz : clen r < 32000) (str : Bytes)
+    (fl : VmFlags) (hw : fl.wide = false) (hb : fl.backwards = false) (fuel : Nat) (m : Int) (c : List Nat)
+    (h : exec { code := (emitCode false r).toArray, entry := 0, buf := str, start := 0, fl := fl, syncFuel := fuel } = .done m c)
+    (hm : 0 ≤ m) : ∃ o q, o ≤ q ∧ q ≤ str.size ∧ Re.Matches (specFlags fl) str r o q := by
+  obtain ⟨_, g2⟩ := envOf_sound r hf hsz str 0 (Nat.zero_le _) fl hw hb fuel m c h
+  obtain ⟨s0, _, h2, h3, _, hmm⟩ := g2 hm
+  exact ⟨s0, 0 + m.toNat, h2, h3, hmm⟩
 
 end YaraModel.ReEmit
